@@ -24,12 +24,16 @@ class Var:
           'ca'  (items x categories) -- occupies two apparent dimensions
     """
 
-    def __init__(self, kind, alias, cats=None, items=None, numeric_values=None, ca_transposed=False):
+    def __init__(self, kind, alias, cats=None, items=None, numeric_values=None, ca_transposed=False,
+                 typedef_perm=None):
         self.kind = kind
         self.alias = alias
         self.cats = cats or []      # list of dict(id, missing, name, numeric_value[, date])
         self.items = items or []    # list of dict(id, alias, subvar_id, name)
         self.ca_transposed = ca_transposed  # CA rendered as CA_CAT x CA_SUBVAR
+        # when set (a permutation of range(len(cats))): the typedef lists the categories in THAT order and
+        # carries `order` = ids in data order; `cats` always stays in data (payload-axis) order
+        self.typedef_perm = typedef_perm
 
     # ---- shape / typed view ------------------------------------------------------------
     @property
@@ -53,12 +57,12 @@ class Var:
 
     def to_json(self):
         return {"kind": self.kind, "alias": self.alias, "cats": self.cats, "items": self.items,
-                "ca_transposed": self.ca_transposed}
+                "ca_transposed": self.ca_transposed, "typedef_perm": self.typedef_perm}
 
     @classmethod
     def from_json(cls, d):
         return cls(d["kind"], d["alias"], cats=copy.deepcopy(d["cats"]), items=copy.deepcopy(d["items"]),
-                   ca_transposed=d.get("ca_transposed", False))
+                   ca_transposed=d.get("ca_transposed", False), typedef_perm=d.get("typedef_perm"))
 
     @property
     def valid_cat_pos(self):
@@ -86,8 +90,11 @@ class Var:
                 if c.get("selected"):
                     d["selected"] = True
                 cats.append(d)
-            return [{"derived": False, "references": refs,
-                     "type": {"class": "categorical", "ordinal": False, "categories": cats}}]
+            typedef = {"class": "categorical", "ordinal": False, "categories": cats}
+            if self.typedef_perm is not None:
+                typedef["order"] = [c["id"] for c in cats]
+                typedef["categories"] = [cats[i] for i in self.typedef_perm]
+            return [{"derived": False, "references": refs, "type": typedef}]
         if self.kind in ("datetime", "text", "binned"):
             sub = {"datetime": "datetime", "text": "text", "binned": "numeric"}[self.kind]
             els = []
@@ -184,7 +191,12 @@ def gen_var(rng, kind, alias, n=None, ncat=None, allow_missing=True, numeric="so
                    items=gen_items(rng, n, alias), ca_transposed=False)
     if kind == "logical":
         return Var("logical", alias, cats=copy.deepcopy(MR_CATS))
-    return Var(kind, alias, cats=gen_cats(rng, n, allow_missing, numeric, min_valid))
+    v = Var(kind, alias, cats=gen_cats(rng, n, allow_missing, numeric, min_valid))
+    if kind in ("cat", "cat_date") and rng.random() < 0.2:
+        perm = list(range(len(v.cats)))
+        rng.shuffle(perm)
+        v.typedef_perm = perm
+    return v
 
 
 def gen_answer(rng, var, p_missing=None):
